@@ -93,6 +93,10 @@ def check_tx(case):
         perm = list(itertools.permutations(('ser', 'ser-stripped', 'gethash', 'gettxid', 'pyhash')))[(case.get('order', 0) + len(seen_hash)) % 120]
         for mutable in (False, True):
             o = libx.mk_tx(m, mutable)
+            if (case.get('order', 0) + mutable) % 4 == 0:
+                # refused operations on unrelated throw-away objects (an out-of-range amount, a bad lock time ...) immediately
+                # before the first reading: a mode switch or buffer that only a SUCCESSFUL call resets must not colour it
+                libx.poison()
             for op in perm:
                 if op == 'ser':
                     ok = libx.call('tx/serialize', o.serialize)[1] == full
@@ -135,6 +139,10 @@ def check_tx(case):
     cur = dict(base, wit=variants[-1][1], vin=list(base['vin']), vout=list(base['vout']))
     mt = libx.mk_tx(cur, True)
     mt.GetTxid(); mt.GetHash(); hash(mt)
+    # ... while an immutable transaction made from it BEFORE the edits, whatever its field values are afterwards, keeps
+    # reporting what an equal-valued twin reports (two objects alive at once; whether it may change at all is C09's business)
+    frozen = CTransaction.from_tx(mt)
+    frozen.GetTxid(); frozen.GetHash(); hash(frozen)
     for ed in case.get('edits', []):
         k = ed[0]
         if k == 'locktime':
@@ -159,6 +167,10 @@ def check_tx(case):
         fresh = libx.mk_tx(cur, False)
         if hash(mt) != hash(fu_) or not (mt == fresh) or mt.GetTxid() != fresh.GetTxid():
             raise Violation('tx/eq-stale-after-edit', 'mutable tx after edit %r disagrees with a fresh immutable of equal fields' % (ed,))
+        twin = CTransaction.deserialize(frozen.serialize())
+        if frozen.GetHash() != twin.GetHash() or frozen.GetTxid() != twin.GetTxid() or hash(frozen) != hash(twin) or not (frozen == twin):
+            raise Violation('tx/snapshot-vs-twin', 'an immutable transaction made from a mutable one disagrees, after edit %r to the mutable one, '
+                            'with an equal-valued twin parsed from its own serialisation' % (ed,))
         evals += 3
     return {'nt': any(W.has_witness(dict(base, wit=[[bytes.fromhex(i) for i in stk] for stk in w])) for _, w in case['wits'])
             and nin >= 2, 'digest': digest(stripped + repr(case['wits']).encode()), 'evals': evals,
@@ -255,8 +267,19 @@ def check_parts(case):
     return {'nt': False, 'evals': 3, 'cls': ['parts']}
 
 
+def check_tx0(case):
+    m = W.tx_from_json(case['tx'])
+    ser = W.enc_tx(m)
+    for mutable in (False, True):
+        o = libx.mk_tx(m, mutable)
+        if o.serialize() != ser or o.GetTxid() != H.dsha(ser) or o.GetHash() != H.dsha(ser) or hash(o) != hash(ser):
+            raise Violation('tx0/ids', 'input-less %s transaction with %d outputs: identifiers are not those of its serialisation' % (
+                'mutable' if mutable else 'immutable', len(m['vout'])))
+    return {'nt': True, 'evals': 2, 'cls': ['tx-without-inputs']}
+
+
 def check_case(case):
-    return {'tx': check_tx, 'block': check_block, 'parts': check_parts}[case['kind']](case)
+    return {'tx': check_tx, 'tx0': check_tx0, 'block': check_block, 'parts': check_parts}[case['kind']](case)
 
 
 @st.composite
@@ -314,9 +337,17 @@ def t_tx(ctx):
     for nullish in (['00' * 32, 0xffffffff], ['00' * 32, 0], ['01' * 32, 0xffffffff]):
         cases.append(({'version': 1, 'vin': [nullish + ['5151', 0xffffffff]], 'vout': [[50, '51']], 'wit': None, 'locktime': 0}, [['00' * 32]]))
         cases.append(({'version': 1, 'vin': [nullish + ['5151', 0], ['02' * 32, 1, '', 0]], 'vout': [[50, '51']], 'wit': None, 'locktime': 0}, [['00' * 32], ['bb']]))
+    # transactions WITHOUT inputs (constructible, though not transferable): their serialisation starts 'version 00 ...' and may
+    # look like the BIP144 marker when exactly one output follows - the identifiers are those of the serialisation all the same
+    for nout in (0, 1, 2):
+        for ver in (1, 2):
+            cases.append(({'version': ver, 'vin': [], 'vout': [[7 + i, '51' * i] for i in range(nout)], 'wit': None, 'locktime': nout}, []))
     for k_, (t, A) in enumerate(cases):
         if k_ % ctx.nshards == ctx.shard:
             nin = len(t['vin'])
+            if nin == 0:
+                ctx.run({'kind': 'tx0', 'tx': t})
+                continue
             ctx.run({'kind': 'tx', 'tx': t, 'order': k_ * 7, 'wits': [['A', A], ['B', [['cc'] for _ in range(nin)]], ['last-only-empty-item', [[] for _ in range(nin - 1)] + [['']]]],
                      'edits': [['locktime', 9], ['seq', 0, 0], ['wit', 3]]})
     if ctx.shard == 0:
